@@ -177,3 +177,471 @@ step_harness!(c01_q_step_nn_r0, step_read, 8, 4, 4, 1, Pat::NN, 0, 0, 34);
 step_harness!(c01_q_step_nn_w1, step_write, 8, 4, 4, 0, Pat::NN, 0, 1, 34);
 step_harness!(c01_q_step_xx_w1, step_write, 8, 4, 4, 2, Pat::XX, 0, 1, 34);
 step_harness!(c01_q_step_xx_r2, step_read, 8, 4, 4, 1, Pat::XX, 0, 2, 34);
+
+// ------------------------------------------------------------------------------------------------- init
+
+/// The real `HandshakeState::new` (as `Builder::build` calls it) vs the specification's Initialize: protocol
+/// name shorter than / equal to / longer than HASHLEN, symbolic prologue, pre-message keys in the
+/// specification's order; every field the other harnesses start from.
+pub fn init_case<const HL: usize>(pat: Pat, psk_mask: u16, initiator: bool, name: &'static str, prolen: usize) {
+    use crate::prims::Prims;
+    let pro: [u8; 3] = kani::any();
+    let si: [u8; 8] = kani::any();
+    let rs_pub: [u8; 8] = kani::any();
+    let need_s = pat.needs_local_static(initiator);
+    let need_rs = pat.needs_remote_static(initiator);
+    let rm = HsOps::<Toy<HL, 4, 4>>::initialize(
+        pat,
+        psk_mask,
+        initiator,
+        name.as_bytes(),
+        &pro[..prolen],
+        if need_s { Some(&si[..4]) } else { None },
+        if need_rs { Some(&rs_pub[..4]) } else { None },
+        [[0u8; 32]; 10],
+        0,
+    );
+    if need_s {
+        dh_set_priv(0, 4, &si);
+    }
+    let mut rs_arr = [0u8; verif::MAXDHLEN];
+    let mut j = 0;
+    while j < 4 {
+        rs_arr[j] = rs_pub[j];
+        j += 1;
+    }
+    let r = verif::handshake_new(
+        Box::new(SRng),
+        Box::new(SCipher::<0>),
+        Box::new(SHash::<HL, 0>),
+        Box::new(SDh::<4, 4, 0>),
+        need_s,
+        Box::new(SDh::<4, 4, 1>),
+        false,
+        rs_arr,
+        need_rs,
+        initiator,
+        mk_params(name, pat, psk_mask),
+        &[None; 10],
+        &pro[..prolen],
+        Box::new(SCipher::<1>),
+        Box::new(SCipher::<2>),
+    );
+    kani::cover!(r.is_ok(), "C01 init reachable");
+    assert!(r.is_ok(), "C01: HandshakeState::new failed for a complete configuration");
+    if let Ok(hs) = r {
+        let snap = verif::snapshot(&hs);
+        let d = diff_state::<Toy<HL, 4, 4>>(&snap, EP_A, &rm);
+        assert!(d == 0, "C01: initial handshake state differs from the specification's Initialize");
+        assert!(snap.pattern_len == pat.nmsgs(), "C01: number of messages of the pattern");
+        let hh = hs.get_handshake_hash();
+        assert!(hh.len() == HL, "C01: handshake hash length");
+        assert_prefix_eq!(hh, rm.sym.h, HL, HL, "C01: initial handshake hash differs from the specification");
+        assert!(!hs.was_write_payload_encrypted() && !hs.is_handshake_finished() && hs.is_my_turn() == initiator, "C01: initial indicators");
+        core::mem::forget(hs);
+    }
+    let _ = <Toy<HL, 4, 4> as Prims>::HL;
+}
+
+macro_rules! init_harness {
+    ($name:ident, $hl:expr, $pat:expr, $mask:expr, $ini:expr, $nm:expr, $plen:expr) => {
+        #[kani::proof]
+        #[kani::unwind(66)]
+        pub fn $name() {
+            init_case::<$hl>($pat, $mask, $ini, $nm, $plen);
+        }
+    };
+}
+init_harness!(c01_q_init_kk_i_longname, 8, Pat::KK, 0, true, "Noise_KK_25519_ChaChaPoly_SHA256", 3);
+init_harness!(c01_q_init_kk_r_name_eq_hashlen, 32, Pat::KK, 0, false, "Noise_KK_25519_ChaChaPoly_SHA256", 2);
+init_harness!(c01_q_init_nk_i_shortname, 32, Pat::NK, 0, true, "Noise_NK", 0);
+init_harness!(c01_q_init_k_r_hl64, 64, Pat::K, 0, false, "Noise_K_25519_ChaChaPoly_BLAKE2b", 1);
+init_harness!(c01_t_init_xx_i, 8, Pat::XX, 0, true, "Noise_XX_25519_ChaChaPoly_SHA256", 2);
+init_harness!(c01_t_init_x_r, 8, Pat::X, 0, false, "Noise_X_25519_ChaChaPoly_SHA256", 2);
+init_harness!(c01_t_init_ik_r, 8, Pat::IK, 0, false, "Noise_IK_25519_ChaChaPoly_SHA256", 2);
+init_harness!(c01_t_init_kx1_i, 8, Pat::KX1, 0, true, "Noise_KX1_25519_ChaChaPoly_SHA256", 2);
+
+// -------------------------------------------------------------------------------------------- transport
+
+/// After the last message: real conversions, then transport messages == ENCRYPT(k1 / k2, n, "", p) of the
+/// specification (initiator sends with the first Split() output), stateful (nonces 0, 1) and stateless (symbolic n).
+pub fn transport_tail<const HL: usize>(pat: Pat, initiator: bool, stateless: bool) {
+    use crate::prims::Prims;
+    use snow::error::StateProblem;
+    let pro: [u8; 2] = kani::any();
+    let mut pair = rm_pair::<Toy<HL, 4, 4>>(pat, 0, NAME.as_bytes(), &pro);
+    rm_advance::<Toy<HL, 4, 4>>(&mut pair, pat.nmsgs());
+    let rm = if initiator { pair.i } else { pair.r };
+    let tr = TrOps::<Toy<HL, 4, 4>>::from_hs(&rm);
+    let hs = snow_from_rm_a::<HL, 4, 4>(&rm, NAME, false);
+    // the cipher objects the handshake state holds for transport carry the Split() keys (set by the last step)
+    set_cipher_key(EP_A.c1, &rm.k1);
+    set_cipher_key(EP_A.c2, &rm.k2);
+    let p1: [u8; 2] = kani::any();
+    let p2: [u8; 2] = kani::any();
+    let mut m1 = [0u8; 18];
+    let mut m2 = [0u8; 18];
+    let mut w1 = [0u8; 18];
+    let mut w2 = [0u8; 18];
+    let may_write = initiator || !pat.is_oneway();
+    if stateless {
+        let ts = hs.into_stateless_transport_mode();
+        assert!(ts.is_ok(), "C01: stateless conversion after the last message failed");
+        if let Ok(ts) = ts {
+            let n: u64 = kani::any();
+            kani::assume(n != u64::MAX);
+            let r = ts.write_message(n, &p1, &mut m1);
+            kani::cover!(true, "C01 stateless transport reached");
+            if may_write {
+                TrOps::<Toy<HL, 4, 4>>::write_at(&tr, n, &p1, &mut w1);
+                assert!(r == Ok(18) && m1 == w1, "C01: stateless transport message differs from the specification's ENCRYPT(k, n, \"\", payload)");
+            } else {
+                assert!(r == Err(snow::Error::State(StateProblem::OneWay)), "C01: responder of a one-way pattern wrote a transport message");
+            }
+            core::mem::forget(ts);
+        }
+    } else {
+        let ts = hs.into_transport_mode();
+        assert!(ts.is_ok(), "C01: conversion after the last message failed");
+        if let Ok(mut ts) = ts {
+            assert!(ts.sending_nonce() == 0 && ts.receiving_nonce() == 0, "C01: transport nonces do not start at 0");
+            let r1 = ts.write_message(&p1, &mut m1);
+            let r2 = ts.write_message(&p2, &mut m2);
+            kani::cover!(true, "C01 stateful transport reached");
+            if may_write {
+                TrOps::<Toy<HL, 4, 4>>::write_at(&tr, 0, &p1, &mut w1);
+                TrOps::<Toy<HL, 4, 4>>::write_at(&tr, 1, &p2, &mut w2);
+                assert!(r1 == Ok(18) && m1 == w1, "C01: first transport message differs from the specification");
+                assert!(r2 == Ok(18) && m2 == w2, "C01: second transport message differs from the specification");
+            } else {
+                assert!(r1 == Err(snow::Error::State(StateProblem::OneWay)), "C01: responder of a one-way pattern wrote a transport message");
+            }
+            core::mem::forget(ts);
+        }
+    }
+    let _ = <Toy<HL, 4, 4> as Prims>::HL;
+}
+
+macro_rules! transport_harness {
+    ($name:ident, $pat:expr, $ini:expr, $sl:expr) => {
+        #[kani::proof]
+        #[kani::unwind(34)]
+        pub fn $name() {
+            transport_tail::<8>($pat, $ini, $sl);
+        }
+    };
+}
+transport_harness!(c01_q_transport_nn_i_stateful, Pat::NN, true, false);
+transport_harness!(c01_q_transport_nn_r_stateless, Pat::NN, false, true);
+transport_harness!(c01_q_transport_n_r_stateful, Pat::N, false, false);
+transport_harness!(c01_t_transport_xx_r_stateful, Pat::XX, false, false);
+transport_harness!(c01_t_transport_n_i_stateless, Pat::N, true, true);
+
+// more step harnesses (quick): one per token kind / position class / role
+step_harness!(c01_q_step_ik_w0, step_write, 8, 4, 4, 2, Pat::IK, 0, 0, 34);
+step_harness!(c01_q_step_ik_r1, step_read, 8, 4, 4, 1, Pat::IK, 0, 1, 34);
+step_harness!(c01_q_step_nnpsk0_w0, step_write, 8, 4, 4, 2, Pat::NN, 1, 0, 34);
+step_harness!(c01_q_step_nnpsk2_r1, step_read, 8, 4, 4, 1, Pat::NN, 4, 1, 34);
+step_harness!(c01_q_step_x1n_w2, step_write, 8, 4, 4, 0, Pat::X1N, 0, 2, 34);
+step_harness!(c01_q_step_kk_r0, step_read, 8, 4, 4, 2, Pat::KK, 0, 0, 34);
+step_harness!(c01_q_step_n_w0, step_write, 8, 4, 4, 2, Pat::N, 0, 0, 34);
+step_harness!(c01_q_step_xx_w1_p256shape, step_write, 8, 5, 3, 1, Pat::XX, 0, 1, 34);
+step_harness!(c01_q_step_nn_w0_hl32, step_write, 32, 4, 4, 1, Pat::NN, 0, 0, 34);
+step_harness!(c01_q_step_nnpsk0_r0_hl64, step_read, 64, 4, 4, 1, Pat::NN, 1, 0, 66);
+step_harness!(c01_q_step_xxpsk2_w1, step_write, 8, 4, 4, 1, Pat::XX, 4, 1, 34);
+
+// thorough: generated list
+step_harness!(c01_t_step_n_w0, step_write, 8, 4, 4, 0, Pat::N, 0, 0, 34);
+step_harness!(c01_t_step_n_r0, step_read, 8, 4, 4, 1, Pat::N, 0, 0, 34);
+step_harness!(c01_t_step_x_w0, step_write, 8, 4, 4, 0, Pat::X, 0, 0, 34);
+step_harness!(c01_t_step_x_r0, step_read, 8, 4, 4, 1, Pat::X, 0, 0, 34);
+step_harness!(c01_t_step_k_w0, step_write, 8, 4, 4, 0, Pat::K, 0, 0, 34);
+step_harness!(c01_t_step_k_r0, step_read, 8, 4, 4, 1, Pat::K, 0, 0, 34);
+step_harness!(c01_t_step_nn_w0, step_write, 8, 4, 4, 0, Pat::NN, 0, 0, 34);
+step_harness!(c01_t_step_nn_r0, step_read, 8, 4, 4, 1, Pat::NN, 0, 0, 34);
+step_harness!(c01_t_step_nn_w1, step_write, 8, 4, 4, 1, Pat::NN, 0, 1, 34);
+step_harness!(c01_t_step_nn_r1, step_read, 8, 4, 4, 2, Pat::NN, 0, 1, 34);
+step_harness!(c01_t_step_nk_w0, step_write, 8, 4, 4, 0, Pat::NK, 0, 0, 34);
+step_harness!(c01_t_step_nk_r0, step_read, 8, 4, 4, 1, Pat::NK, 0, 0, 34);
+step_harness!(c01_t_step_nk_w1, step_write, 8, 4, 4, 1, Pat::NK, 0, 1, 34);
+step_harness!(c01_t_step_nk_r1, step_read, 8, 4, 4, 2, Pat::NK, 0, 1, 34);
+step_harness!(c01_t_step_nx_w0, step_write, 8, 4, 4, 0, Pat::NX, 0, 0, 34);
+step_harness!(c01_t_step_nx_r0, step_read, 8, 4, 4, 1, Pat::NX, 0, 0, 34);
+step_harness!(c01_t_step_nx_w1, step_write, 8, 4, 4, 1, Pat::NX, 0, 1, 34);
+step_harness!(c01_t_step_nx_r1, step_read, 8, 4, 4, 2, Pat::NX, 0, 1, 34);
+step_harness!(c01_t_step_xn_w0, step_write, 8, 4, 4, 0, Pat::XN, 0, 0, 34);
+step_harness!(c01_t_step_xn_r0, step_read, 8, 4, 4, 1, Pat::XN, 0, 0, 34);
+step_harness!(c01_t_step_xn_w1, step_write, 8, 4, 4, 1, Pat::XN, 0, 1, 34);
+step_harness!(c01_t_step_xn_r1, step_read, 8, 4, 4, 2, Pat::XN, 0, 1, 34);
+step_harness!(c01_t_step_xn_w2, step_write, 8, 4, 4, 2, Pat::XN, 0, 2, 34);
+step_harness!(c01_t_step_xn_r2, step_read, 8, 4, 4, 0, Pat::XN, 0, 2, 34);
+step_harness!(c01_t_step_xk_w0, step_write, 8, 4, 4, 0, Pat::XK, 0, 0, 34);
+step_harness!(c01_t_step_xk_r0, step_read, 8, 4, 4, 1, Pat::XK, 0, 0, 34);
+step_harness!(c01_t_step_xk_w1, step_write, 8, 4, 4, 1, Pat::XK, 0, 1, 34);
+step_harness!(c01_t_step_xk_r1, step_read, 8, 4, 4, 2, Pat::XK, 0, 1, 34);
+step_harness!(c01_t_step_xk_w2, step_write, 8, 4, 4, 2, Pat::XK, 0, 2, 34);
+step_harness!(c01_t_step_xk_r2, step_read, 8, 4, 4, 0, Pat::XK, 0, 2, 34);
+step_harness!(c01_t_step_xx_w0, step_write, 8, 4, 4, 0, Pat::XX, 0, 0, 34);
+step_harness!(c01_t_step_xx_r0, step_read, 8, 4, 4, 1, Pat::XX, 0, 0, 34);
+step_harness!(c01_t_step_xx_w1, step_write, 8, 4, 4, 1, Pat::XX, 0, 1, 34);
+step_harness!(c01_t_step_xx_r1, step_read, 8, 4, 4, 2, Pat::XX, 0, 1, 34);
+step_harness!(c01_t_step_xx_w2, step_write, 8, 4, 4, 2, Pat::XX, 0, 2, 34);
+step_harness!(c01_t_step_xx_r2, step_read, 8, 4, 4, 0, Pat::XX, 0, 2, 34);
+step_harness!(c01_t_step_kn_w0, step_write, 8, 4, 4, 0, Pat::KN, 0, 0, 34);
+step_harness!(c01_t_step_kn_r0, step_read, 8, 4, 4, 1, Pat::KN, 0, 0, 34);
+step_harness!(c01_t_step_kn_w1, step_write, 8, 4, 4, 1, Pat::KN, 0, 1, 34);
+step_harness!(c01_t_step_kn_r1, step_read, 8, 4, 4, 2, Pat::KN, 0, 1, 34);
+step_harness!(c01_t_step_kk_w0, step_write, 8, 4, 4, 0, Pat::KK, 0, 0, 34);
+step_harness!(c01_t_step_kk_r0, step_read, 8, 4, 4, 1, Pat::KK, 0, 0, 34);
+step_harness!(c01_t_step_kk_w1, step_write, 8, 4, 4, 1, Pat::KK, 0, 1, 34);
+step_harness!(c01_t_step_kk_r1, step_read, 8, 4, 4, 2, Pat::KK, 0, 1, 34);
+step_harness!(c01_t_step_kx_w0, step_write, 8, 4, 4, 0, Pat::KX, 0, 0, 34);
+step_harness!(c01_t_step_kx_r0, step_read, 8, 4, 4, 1, Pat::KX, 0, 0, 34);
+step_harness!(c01_t_step_kx_w1, step_write, 8, 4, 4, 1, Pat::KX, 0, 1, 34);
+step_harness!(c01_t_step_kx_r1, step_read, 8, 4, 4, 2, Pat::KX, 0, 1, 34);
+step_harness!(c01_t_step_in_w0, step_write, 8, 4, 4, 0, Pat::IN, 0, 0, 34);
+step_harness!(c01_t_step_in_r0, step_read, 8, 4, 4, 1, Pat::IN, 0, 0, 34);
+step_harness!(c01_t_step_in_w1, step_write, 8, 4, 4, 1, Pat::IN, 0, 1, 34);
+step_harness!(c01_t_step_in_r1, step_read, 8, 4, 4, 2, Pat::IN, 0, 1, 34);
+step_harness!(c01_t_step_ik_w0, step_write, 8, 4, 4, 0, Pat::IK, 0, 0, 34);
+step_harness!(c01_t_step_ik_r0, step_read, 8, 4, 4, 1, Pat::IK, 0, 0, 34);
+step_harness!(c01_t_step_ik_w1, step_write, 8, 4, 4, 1, Pat::IK, 0, 1, 34);
+step_harness!(c01_t_step_ik_r1, step_read, 8, 4, 4, 2, Pat::IK, 0, 1, 34);
+step_harness!(c01_t_step_ix_w0, step_write, 8, 4, 4, 0, Pat::IX, 0, 0, 34);
+step_harness!(c01_t_step_ix_r0, step_read, 8, 4, 4, 1, Pat::IX, 0, 0, 34);
+step_harness!(c01_t_step_ix_w1, step_write, 8, 4, 4, 1, Pat::IX, 0, 1, 34);
+step_harness!(c01_t_step_ix_r1, step_read, 8, 4, 4, 2, Pat::IX, 0, 1, 34);
+step_harness!(c01_t_step_nk1_w0, step_write, 8, 4, 4, 0, Pat::NK1, 0, 0, 34);
+step_harness!(c01_t_step_nk1_r0, step_read, 8, 4, 4, 1, Pat::NK1, 0, 0, 34);
+step_harness!(c01_t_step_nk1_w1, step_write, 8, 4, 4, 1, Pat::NK1, 0, 1, 34);
+step_harness!(c01_t_step_nk1_r1, step_read, 8, 4, 4, 2, Pat::NK1, 0, 1, 34);
+step_harness!(c01_t_step_nx1_w0, step_write, 8, 4, 4, 0, Pat::NX1, 0, 0, 34);
+step_harness!(c01_t_step_nx1_r0, step_read, 8, 4, 4, 1, Pat::NX1, 0, 0, 34);
+step_harness!(c01_t_step_nx1_w1, step_write, 8, 4, 4, 1, Pat::NX1, 0, 1, 34);
+step_harness!(c01_t_step_nx1_r1, step_read, 8, 4, 4, 2, Pat::NX1, 0, 1, 34);
+step_harness!(c01_t_step_nx1_w2, step_write, 8, 4, 4, 2, Pat::NX1, 0, 2, 34);
+step_harness!(c01_t_step_nx1_r2, step_read, 8, 4, 4, 0, Pat::NX1, 0, 2, 34);
+step_harness!(c01_t_step_x1n_w0, step_write, 8, 4, 4, 0, Pat::X1N, 0, 0, 34);
+step_harness!(c01_t_step_x1n_r0, step_read, 8, 4, 4, 1, Pat::X1N, 0, 0, 34);
+step_harness!(c01_t_step_x1n_w1, step_write, 8, 4, 4, 1, Pat::X1N, 0, 1, 34);
+step_harness!(c01_t_step_x1n_r1, step_read, 8, 4, 4, 2, Pat::X1N, 0, 1, 34);
+step_harness!(c01_t_step_x1n_w2, step_write, 8, 4, 4, 2, Pat::X1N, 0, 2, 34);
+step_harness!(c01_t_step_x1n_r2, step_read, 8, 4, 4, 0, Pat::X1N, 0, 2, 34);
+step_harness!(c01_t_step_x1n_w3, step_write, 8, 4, 4, 0, Pat::X1N, 0, 3, 34);
+step_harness!(c01_t_step_x1n_r3, step_read, 8, 4, 4, 1, Pat::X1N, 0, 3, 34);
+step_harness!(c01_t_step_x1k_w0, step_write, 8, 4, 4, 0, Pat::X1K, 0, 0, 34);
+step_harness!(c01_t_step_x1k_r0, step_read, 8, 4, 4, 1, Pat::X1K, 0, 0, 34);
+step_harness!(c01_t_step_x1k_w1, step_write, 8, 4, 4, 1, Pat::X1K, 0, 1, 34);
+step_harness!(c01_t_step_x1k_r1, step_read, 8, 4, 4, 2, Pat::X1K, 0, 1, 34);
+step_harness!(c01_t_step_x1k_w2, step_write, 8, 4, 4, 2, Pat::X1K, 0, 2, 34);
+step_harness!(c01_t_step_x1k_r2, step_read, 8, 4, 4, 0, Pat::X1K, 0, 2, 34);
+step_harness!(c01_t_step_x1k_w3, step_write, 8, 4, 4, 0, Pat::X1K, 0, 3, 34);
+step_harness!(c01_t_step_x1k_r3, step_read, 8, 4, 4, 1, Pat::X1K, 0, 3, 34);
+step_harness!(c01_t_step_xk1_w0, step_write, 8, 4, 4, 0, Pat::XK1, 0, 0, 34);
+step_harness!(c01_t_step_xk1_r0, step_read, 8, 4, 4, 1, Pat::XK1, 0, 0, 34);
+step_harness!(c01_t_step_xk1_w1, step_write, 8, 4, 4, 1, Pat::XK1, 0, 1, 34);
+step_harness!(c01_t_step_xk1_r1, step_read, 8, 4, 4, 2, Pat::XK1, 0, 1, 34);
+step_harness!(c01_t_step_xk1_w2, step_write, 8, 4, 4, 2, Pat::XK1, 0, 2, 34);
+step_harness!(c01_t_step_xk1_r2, step_read, 8, 4, 4, 0, Pat::XK1, 0, 2, 34);
+step_harness!(c01_t_step_x1k1_w0, step_write, 8, 4, 4, 0, Pat::X1K1, 0, 0, 34);
+step_harness!(c01_t_step_x1k1_r0, step_read, 8, 4, 4, 1, Pat::X1K1, 0, 0, 34);
+step_harness!(c01_t_step_x1k1_w1, step_write, 8, 4, 4, 1, Pat::X1K1, 0, 1, 34);
+step_harness!(c01_t_step_x1k1_r1, step_read, 8, 4, 4, 2, Pat::X1K1, 0, 1, 34);
+step_harness!(c01_t_step_x1k1_w2, step_write, 8, 4, 4, 2, Pat::X1K1, 0, 2, 34);
+step_harness!(c01_t_step_x1k1_r2, step_read, 8, 4, 4, 0, Pat::X1K1, 0, 2, 34);
+step_harness!(c01_t_step_x1k1_w3, step_write, 8, 4, 4, 0, Pat::X1K1, 0, 3, 34);
+step_harness!(c01_t_step_x1k1_r3, step_read, 8, 4, 4, 1, Pat::X1K1, 0, 3, 34);
+step_harness!(c01_t_step_x1x_w0, step_write, 8, 4, 4, 0, Pat::X1X, 0, 0, 34);
+step_harness!(c01_t_step_x1x_r0, step_read, 8, 4, 4, 1, Pat::X1X, 0, 0, 34);
+step_harness!(c01_t_step_x1x_w1, step_write, 8, 4, 4, 1, Pat::X1X, 0, 1, 34);
+step_harness!(c01_t_step_x1x_r1, step_read, 8, 4, 4, 2, Pat::X1X, 0, 1, 34);
+step_harness!(c01_t_step_x1x_w2, step_write, 8, 4, 4, 2, Pat::X1X, 0, 2, 34);
+step_harness!(c01_t_step_x1x_r2, step_read, 8, 4, 4, 0, Pat::X1X, 0, 2, 34);
+step_harness!(c01_t_step_x1x_w3, step_write, 8, 4, 4, 0, Pat::X1X, 0, 3, 34);
+step_harness!(c01_t_step_x1x_r3, step_read, 8, 4, 4, 1, Pat::X1X, 0, 3, 34);
+step_harness!(c01_t_step_xx1_w0, step_write, 8, 4, 4, 0, Pat::XX1, 0, 0, 34);
+step_harness!(c01_t_step_xx1_r0, step_read, 8, 4, 4, 1, Pat::XX1, 0, 0, 34);
+step_harness!(c01_t_step_xx1_w1, step_write, 8, 4, 4, 1, Pat::XX1, 0, 1, 34);
+step_harness!(c01_t_step_xx1_r1, step_read, 8, 4, 4, 2, Pat::XX1, 0, 1, 34);
+step_harness!(c01_t_step_xx1_w2, step_write, 8, 4, 4, 2, Pat::XX1, 0, 2, 34);
+step_harness!(c01_t_step_xx1_r2, step_read, 8, 4, 4, 0, Pat::XX1, 0, 2, 34);
+step_harness!(c01_t_step_x1x1_w0, step_write, 8, 4, 4, 0, Pat::X1X1, 0, 0, 34);
+step_harness!(c01_t_step_x1x1_r0, step_read, 8, 4, 4, 1, Pat::X1X1, 0, 0, 34);
+step_harness!(c01_t_step_x1x1_w1, step_write, 8, 4, 4, 1, Pat::X1X1, 0, 1, 34);
+step_harness!(c01_t_step_x1x1_r1, step_read, 8, 4, 4, 2, Pat::X1X1, 0, 1, 34);
+step_harness!(c01_t_step_x1x1_w2, step_write, 8, 4, 4, 2, Pat::X1X1, 0, 2, 34);
+step_harness!(c01_t_step_x1x1_r2, step_read, 8, 4, 4, 0, Pat::X1X1, 0, 2, 34);
+step_harness!(c01_t_step_x1x1_w3, step_write, 8, 4, 4, 0, Pat::X1X1, 0, 3, 34);
+step_harness!(c01_t_step_x1x1_r3, step_read, 8, 4, 4, 1, Pat::X1X1, 0, 3, 34);
+step_harness!(c01_t_step_k1n_w0, step_write, 8, 4, 4, 0, Pat::K1N, 0, 0, 34);
+step_harness!(c01_t_step_k1n_r0, step_read, 8, 4, 4, 1, Pat::K1N, 0, 0, 34);
+step_harness!(c01_t_step_k1n_w1, step_write, 8, 4, 4, 1, Pat::K1N, 0, 1, 34);
+step_harness!(c01_t_step_k1n_r1, step_read, 8, 4, 4, 2, Pat::K1N, 0, 1, 34);
+step_harness!(c01_t_step_k1n_w2, step_write, 8, 4, 4, 2, Pat::K1N, 0, 2, 34);
+step_harness!(c01_t_step_k1n_r2, step_read, 8, 4, 4, 0, Pat::K1N, 0, 2, 34);
+step_harness!(c01_t_step_k1k_w0, step_write, 8, 4, 4, 0, Pat::K1K, 0, 0, 34);
+step_harness!(c01_t_step_k1k_r0, step_read, 8, 4, 4, 1, Pat::K1K, 0, 0, 34);
+step_harness!(c01_t_step_k1k_w1, step_write, 8, 4, 4, 1, Pat::K1K, 0, 1, 34);
+step_harness!(c01_t_step_k1k_r1, step_read, 8, 4, 4, 2, Pat::K1K, 0, 1, 34);
+step_harness!(c01_t_step_k1k_w2, step_write, 8, 4, 4, 2, Pat::K1K, 0, 2, 34);
+step_harness!(c01_t_step_k1k_r2, step_read, 8, 4, 4, 0, Pat::K1K, 0, 2, 34);
+step_harness!(c01_t_step_kk1_w0, step_write, 8, 4, 4, 0, Pat::KK1, 0, 0, 34);
+step_harness!(c01_t_step_kk1_r0, step_read, 8, 4, 4, 1, Pat::KK1, 0, 0, 34);
+step_harness!(c01_t_step_kk1_w1, step_write, 8, 4, 4, 1, Pat::KK1, 0, 1, 34);
+step_harness!(c01_t_step_kk1_r1, step_read, 8, 4, 4, 2, Pat::KK1, 0, 1, 34);
+step_harness!(c01_t_step_k1k1_w0, step_write, 8, 4, 4, 0, Pat::K1K1, 0, 0, 34);
+step_harness!(c01_t_step_k1k1_r0, step_read, 8, 4, 4, 1, Pat::K1K1, 0, 0, 34);
+step_harness!(c01_t_step_k1k1_w1, step_write, 8, 4, 4, 1, Pat::K1K1, 0, 1, 34);
+step_harness!(c01_t_step_k1k1_r1, step_read, 8, 4, 4, 2, Pat::K1K1, 0, 1, 34);
+step_harness!(c01_t_step_k1k1_w2, step_write, 8, 4, 4, 2, Pat::K1K1, 0, 2, 34);
+step_harness!(c01_t_step_k1k1_r2, step_read, 8, 4, 4, 0, Pat::K1K1, 0, 2, 34);
+step_harness!(c01_t_step_k1x_w0, step_write, 8, 4, 4, 0, Pat::K1X, 0, 0, 34);
+step_harness!(c01_t_step_k1x_r0, step_read, 8, 4, 4, 1, Pat::K1X, 0, 0, 34);
+step_harness!(c01_t_step_k1x_w1, step_write, 8, 4, 4, 1, Pat::K1X, 0, 1, 34);
+step_harness!(c01_t_step_k1x_r1, step_read, 8, 4, 4, 2, Pat::K1X, 0, 1, 34);
+step_harness!(c01_t_step_k1x_w2, step_write, 8, 4, 4, 2, Pat::K1X, 0, 2, 34);
+step_harness!(c01_t_step_k1x_r2, step_read, 8, 4, 4, 0, Pat::K1X, 0, 2, 34);
+step_harness!(c01_t_step_kx1_w0, step_write, 8, 4, 4, 0, Pat::KX1, 0, 0, 34);
+step_harness!(c01_t_step_kx1_r0, step_read, 8, 4, 4, 1, Pat::KX1, 0, 0, 34);
+step_harness!(c01_t_step_kx1_w1, step_write, 8, 4, 4, 1, Pat::KX1, 0, 1, 34);
+step_harness!(c01_t_step_kx1_r1, step_read, 8, 4, 4, 2, Pat::KX1, 0, 1, 34);
+step_harness!(c01_t_step_kx1_w2, step_write, 8, 4, 4, 2, Pat::KX1, 0, 2, 34);
+step_harness!(c01_t_step_kx1_r2, step_read, 8, 4, 4, 0, Pat::KX1, 0, 2, 34);
+step_harness!(c01_t_step_k1x1_w0, step_write, 8, 4, 4, 0, Pat::K1X1, 0, 0, 34);
+step_harness!(c01_t_step_k1x1_r0, step_read, 8, 4, 4, 1, Pat::K1X1, 0, 0, 34);
+step_harness!(c01_t_step_k1x1_w1, step_write, 8, 4, 4, 1, Pat::K1X1, 0, 1, 34);
+step_harness!(c01_t_step_k1x1_r1, step_read, 8, 4, 4, 2, Pat::K1X1, 0, 1, 34);
+step_harness!(c01_t_step_k1x1_w2, step_write, 8, 4, 4, 2, Pat::K1X1, 0, 2, 34);
+step_harness!(c01_t_step_k1x1_r2, step_read, 8, 4, 4, 0, Pat::K1X1, 0, 2, 34);
+step_harness!(c01_t_step_i1n_w0, step_write, 8, 4, 4, 0, Pat::I1N, 0, 0, 34);
+step_harness!(c01_t_step_i1n_r0, step_read, 8, 4, 4, 1, Pat::I1N, 0, 0, 34);
+step_harness!(c01_t_step_i1n_w1, step_write, 8, 4, 4, 1, Pat::I1N, 0, 1, 34);
+step_harness!(c01_t_step_i1n_r1, step_read, 8, 4, 4, 2, Pat::I1N, 0, 1, 34);
+step_harness!(c01_t_step_i1n_w2, step_write, 8, 4, 4, 2, Pat::I1N, 0, 2, 34);
+step_harness!(c01_t_step_i1n_r2, step_read, 8, 4, 4, 0, Pat::I1N, 0, 2, 34);
+step_harness!(c01_t_step_i1k_w0, step_write, 8, 4, 4, 0, Pat::I1K, 0, 0, 34);
+step_harness!(c01_t_step_i1k_r0, step_read, 8, 4, 4, 1, Pat::I1K, 0, 0, 34);
+step_harness!(c01_t_step_i1k_w1, step_write, 8, 4, 4, 1, Pat::I1K, 0, 1, 34);
+step_harness!(c01_t_step_i1k_r1, step_read, 8, 4, 4, 2, Pat::I1K, 0, 1, 34);
+step_harness!(c01_t_step_i1k_w2, step_write, 8, 4, 4, 2, Pat::I1K, 0, 2, 34);
+step_harness!(c01_t_step_i1k_r2, step_read, 8, 4, 4, 0, Pat::I1K, 0, 2, 34);
+step_harness!(c01_t_step_ik1_w0, step_write, 8, 4, 4, 0, Pat::IK1, 0, 0, 34);
+step_harness!(c01_t_step_ik1_r0, step_read, 8, 4, 4, 1, Pat::IK1, 0, 0, 34);
+step_harness!(c01_t_step_ik1_w1, step_write, 8, 4, 4, 1, Pat::IK1, 0, 1, 34);
+step_harness!(c01_t_step_ik1_r1, step_read, 8, 4, 4, 2, Pat::IK1, 0, 1, 34);
+step_harness!(c01_t_step_i1k1_w0, step_write, 8, 4, 4, 0, Pat::I1K1, 0, 0, 34);
+step_harness!(c01_t_step_i1k1_r0, step_read, 8, 4, 4, 1, Pat::I1K1, 0, 0, 34);
+step_harness!(c01_t_step_i1k1_w1, step_write, 8, 4, 4, 1, Pat::I1K1, 0, 1, 34);
+step_harness!(c01_t_step_i1k1_r1, step_read, 8, 4, 4, 2, Pat::I1K1, 0, 1, 34);
+step_harness!(c01_t_step_i1k1_w2, step_write, 8, 4, 4, 2, Pat::I1K1, 0, 2, 34);
+step_harness!(c01_t_step_i1k1_r2, step_read, 8, 4, 4, 0, Pat::I1K1, 0, 2, 34);
+step_harness!(c01_t_step_i1x_w0, step_write, 8, 4, 4, 0, Pat::I1X, 0, 0, 34);
+step_harness!(c01_t_step_i1x_r0, step_read, 8, 4, 4, 1, Pat::I1X, 0, 0, 34);
+step_harness!(c01_t_step_i1x_w1, step_write, 8, 4, 4, 1, Pat::I1X, 0, 1, 34);
+step_harness!(c01_t_step_i1x_r1, step_read, 8, 4, 4, 2, Pat::I1X, 0, 1, 34);
+step_harness!(c01_t_step_i1x_w2, step_write, 8, 4, 4, 2, Pat::I1X, 0, 2, 34);
+step_harness!(c01_t_step_i1x_r2, step_read, 8, 4, 4, 0, Pat::I1X, 0, 2, 34);
+step_harness!(c01_t_step_ix1_w0, step_write, 8, 4, 4, 0, Pat::IX1, 0, 0, 34);
+step_harness!(c01_t_step_ix1_r0, step_read, 8, 4, 4, 1, Pat::IX1, 0, 0, 34);
+step_harness!(c01_t_step_ix1_w1, step_write, 8, 4, 4, 1, Pat::IX1, 0, 1, 34);
+step_harness!(c01_t_step_ix1_r1, step_read, 8, 4, 4, 2, Pat::IX1, 0, 1, 34);
+step_harness!(c01_t_step_ix1_w2, step_write, 8, 4, 4, 2, Pat::IX1, 0, 2, 34);
+step_harness!(c01_t_step_ix1_r2, step_read, 8, 4, 4, 0, Pat::IX1, 0, 2, 34);
+step_harness!(c01_t_step_i1x1_w0, step_write, 8, 4, 4, 0, Pat::I1X1, 0, 0, 34);
+step_harness!(c01_t_step_i1x1_r0, step_read, 8, 4, 4, 1, Pat::I1X1, 0, 0, 34);
+step_harness!(c01_t_step_i1x1_w1, step_write, 8, 4, 4, 1, Pat::I1X1, 0, 1, 34);
+step_harness!(c01_t_step_i1x1_r1, step_read, 8, 4, 4, 2, Pat::I1X1, 0, 1, 34);
+step_harness!(c01_t_step_i1x1_w2, step_write, 8, 4, 4, 2, Pat::I1X1, 0, 2, 34);
+step_harness!(c01_t_step_i1x1_r2, step_read, 8, 4, 4, 0, Pat::I1X1, 0, 2, 34);
+step_harness!(c01_t_step_nnpsk0_w0, step_write, 8, 4, 4, 1, Pat::NN, 1, 0, 34);
+step_harness!(c01_t_step_nnpsk0_r0, step_read, 8, 4, 4, 2, Pat::NN, 1, 0, 34);
+step_harness!(c01_t_step_nnpsk0_w1, step_write, 8, 4, 4, 1, Pat::NN, 1, 1, 34);
+step_harness!(c01_t_step_nnpsk0_r1, step_read, 8, 4, 4, 2, Pat::NN, 1, 1, 34);
+step_harness!(c01_t_step_nnpsk1_w0, step_write, 8, 4, 4, 1, Pat::NN, 2, 0, 34);
+step_harness!(c01_t_step_nnpsk1_r0, step_read, 8, 4, 4, 2, Pat::NN, 2, 0, 34);
+step_harness!(c01_t_step_nnpsk1_w1, step_write, 8, 4, 4, 1, Pat::NN, 2, 1, 34);
+step_harness!(c01_t_step_nnpsk1_r1, step_read, 8, 4, 4, 2, Pat::NN, 2, 1, 34);
+step_harness!(c01_t_step_nnpsk2_w0, step_write, 8, 4, 4, 1, Pat::NN, 4, 0, 34);
+step_harness!(c01_t_step_nnpsk2_r0, step_read, 8, 4, 4, 2, Pat::NN, 4, 0, 34);
+step_harness!(c01_t_step_nnpsk2_w1, step_write, 8, 4, 4, 1, Pat::NN, 4, 1, 34);
+step_harness!(c01_t_step_nnpsk2_r1, step_read, 8, 4, 4, 2, Pat::NN, 4, 1, 34);
+step_harness!(c01_t_step_xxpsk0_w0, step_write, 8, 4, 4, 1, Pat::XX, 1, 0, 34);
+step_harness!(c01_t_step_xxpsk0_r0, step_read, 8, 4, 4, 2, Pat::XX, 1, 0, 34);
+step_harness!(c01_t_step_xxpsk0_w1, step_write, 8, 4, 4, 1, Pat::XX, 1, 1, 34);
+step_harness!(c01_t_step_xxpsk0_r1, step_read, 8, 4, 4, 2, Pat::XX, 1, 1, 34);
+step_harness!(c01_t_step_xxpsk0_w2, step_write, 8, 4, 4, 1, Pat::XX, 1, 2, 34);
+step_harness!(c01_t_step_xxpsk0_r2, step_read, 8, 4, 4, 2, Pat::XX, 1, 2, 34);
+step_harness!(c01_t_step_xxpsk1_w0, step_write, 8, 4, 4, 1, Pat::XX, 2, 0, 34);
+step_harness!(c01_t_step_xxpsk1_r0, step_read, 8, 4, 4, 2, Pat::XX, 2, 0, 34);
+step_harness!(c01_t_step_xxpsk1_w1, step_write, 8, 4, 4, 1, Pat::XX, 2, 1, 34);
+step_harness!(c01_t_step_xxpsk1_r1, step_read, 8, 4, 4, 2, Pat::XX, 2, 1, 34);
+step_harness!(c01_t_step_xxpsk1_w2, step_write, 8, 4, 4, 1, Pat::XX, 2, 2, 34);
+step_harness!(c01_t_step_xxpsk1_r2, step_read, 8, 4, 4, 2, Pat::XX, 2, 2, 34);
+step_harness!(c01_t_step_xxpsk2_w0, step_write, 8, 4, 4, 1, Pat::XX, 4, 0, 34);
+step_harness!(c01_t_step_xxpsk2_r0, step_read, 8, 4, 4, 2, Pat::XX, 4, 0, 34);
+step_harness!(c01_t_step_xxpsk2_w1, step_write, 8, 4, 4, 1, Pat::XX, 4, 1, 34);
+step_harness!(c01_t_step_xxpsk2_r1, step_read, 8, 4, 4, 2, Pat::XX, 4, 1, 34);
+step_harness!(c01_t_step_xxpsk2_w2, step_write, 8, 4, 4, 1, Pat::XX, 4, 2, 34);
+step_harness!(c01_t_step_xxpsk2_r2, step_read, 8, 4, 4, 2, Pat::XX, 4, 2, 34);
+step_harness!(c01_t_step_xxpsk3_w0, step_write, 8, 4, 4, 1, Pat::XX, 8, 0, 34);
+step_harness!(c01_t_step_xxpsk3_r0, step_read, 8, 4, 4, 2, Pat::XX, 8, 0, 34);
+step_harness!(c01_t_step_xxpsk3_w1, step_write, 8, 4, 4, 1, Pat::XX, 8, 1, 34);
+step_harness!(c01_t_step_xxpsk3_r1, step_read, 8, 4, 4, 2, Pat::XX, 8, 1, 34);
+step_harness!(c01_t_step_xxpsk3_w2, step_write, 8, 4, 4, 1, Pat::XX, 8, 2, 34);
+step_harness!(c01_t_step_xxpsk3_r2, step_read, 8, 4, 4, 2, Pat::XX, 8, 2, 34);
+step_harness!(c01_t_step_ikpsk0_w0, step_write, 8, 4, 4, 1, Pat::IK, 1, 0, 34);
+step_harness!(c01_t_step_ikpsk0_r0, step_read, 8, 4, 4, 2, Pat::IK, 1, 0, 34);
+step_harness!(c01_t_step_ikpsk0_w1, step_write, 8, 4, 4, 1, Pat::IK, 1, 1, 34);
+step_harness!(c01_t_step_ikpsk0_r1, step_read, 8, 4, 4, 2, Pat::IK, 1, 1, 34);
+step_harness!(c01_t_step_ikpsk1_w0, step_write, 8, 4, 4, 1, Pat::IK, 2, 0, 34);
+step_harness!(c01_t_step_ikpsk1_r0, step_read, 8, 4, 4, 2, Pat::IK, 2, 0, 34);
+step_harness!(c01_t_step_ikpsk1_w1, step_write, 8, 4, 4, 1, Pat::IK, 2, 1, 34);
+step_harness!(c01_t_step_ikpsk1_r1, step_read, 8, 4, 4, 2, Pat::IK, 2, 1, 34);
+step_harness!(c01_t_step_ikpsk2_w0, step_write, 8, 4, 4, 1, Pat::IK, 4, 0, 34);
+step_harness!(c01_t_step_ikpsk2_r0, step_read, 8, 4, 4, 2, Pat::IK, 4, 0, 34);
+step_harness!(c01_t_step_ikpsk2_w1, step_write, 8, 4, 4, 1, Pat::IK, 4, 1, 34);
+step_harness!(c01_t_step_ikpsk2_r1, step_read, 8, 4, 4, 2, Pat::IK, 4, 1, 34);
+step_harness!(c01_t_step_x1x1psk0_w0, step_write, 8, 4, 4, 1, Pat::X1X1, 1, 0, 34);
+step_harness!(c01_t_step_x1x1psk0_r0, step_read, 8, 4, 4, 2, Pat::X1X1, 1, 0, 34);
+step_harness!(c01_t_step_x1x1psk0_w1, step_write, 8, 4, 4, 1, Pat::X1X1, 1, 1, 34);
+step_harness!(c01_t_step_x1x1psk0_r1, step_read, 8, 4, 4, 2, Pat::X1X1, 1, 1, 34);
+step_harness!(c01_t_step_x1x1psk0_w2, step_write, 8, 4, 4, 1, Pat::X1X1, 1, 2, 34);
+step_harness!(c01_t_step_x1x1psk0_r2, step_read, 8, 4, 4, 2, Pat::X1X1, 1, 2, 34);
+step_harness!(c01_t_step_x1x1psk0_w3, step_write, 8, 4, 4, 1, Pat::X1X1, 1, 3, 34);
+step_harness!(c01_t_step_x1x1psk0_r3, step_read, 8, 4, 4, 2, Pat::X1X1, 1, 3, 34);
+step_harness!(c01_t_step_x1x1psk1_w0, step_write, 8, 4, 4, 1, Pat::X1X1, 2, 0, 34);
+step_harness!(c01_t_step_x1x1psk1_r0, step_read, 8, 4, 4, 2, Pat::X1X1, 2, 0, 34);
+step_harness!(c01_t_step_x1x1psk1_w1, step_write, 8, 4, 4, 1, Pat::X1X1, 2, 1, 34);
+step_harness!(c01_t_step_x1x1psk1_r1, step_read, 8, 4, 4, 2, Pat::X1X1, 2, 1, 34);
+step_harness!(c01_t_step_x1x1psk1_w2, step_write, 8, 4, 4, 1, Pat::X1X1, 2, 2, 34);
+step_harness!(c01_t_step_x1x1psk1_r2, step_read, 8, 4, 4, 2, Pat::X1X1, 2, 2, 34);
+step_harness!(c01_t_step_x1x1psk1_w3, step_write, 8, 4, 4, 1, Pat::X1X1, 2, 3, 34);
+step_harness!(c01_t_step_x1x1psk1_r3, step_read, 8, 4, 4, 2, Pat::X1X1, 2, 3, 34);
+step_harness!(c01_t_step_x1x1psk2_w0, step_write, 8, 4, 4, 1, Pat::X1X1, 4, 0, 34);
+step_harness!(c01_t_step_x1x1psk2_r0, step_read, 8, 4, 4, 2, Pat::X1X1, 4, 0, 34);
+step_harness!(c01_t_step_x1x1psk2_w1, step_write, 8, 4, 4, 1, Pat::X1X1, 4, 1, 34);
+step_harness!(c01_t_step_x1x1psk2_r1, step_read, 8, 4, 4, 2, Pat::X1X1, 4, 1, 34);
+step_harness!(c01_t_step_x1x1psk2_w2, step_write, 8, 4, 4, 1, Pat::X1X1, 4, 2, 34);
+step_harness!(c01_t_step_x1x1psk2_r2, step_read, 8, 4, 4, 2, Pat::X1X1, 4, 2, 34);
+step_harness!(c01_t_step_x1x1psk2_w3, step_write, 8, 4, 4, 1, Pat::X1X1, 4, 3, 34);
+step_harness!(c01_t_step_x1x1psk2_r3, step_read, 8, 4, 4, 2, Pat::X1X1, 4, 3, 34);
+step_harness!(c01_t_step_x1x1psk3_w0, step_write, 8, 4, 4, 1, Pat::X1X1, 8, 0, 34);
+step_harness!(c01_t_step_x1x1psk3_r0, step_read, 8, 4, 4, 2, Pat::X1X1, 8, 0, 34);
+step_harness!(c01_t_step_x1x1psk3_w1, step_write, 8, 4, 4, 1, Pat::X1X1, 8, 1, 34);
+step_harness!(c01_t_step_x1x1psk3_r1, step_read, 8, 4, 4, 2, Pat::X1X1, 8, 1, 34);
+step_harness!(c01_t_step_x1x1psk3_w2, step_write, 8, 4, 4, 1, Pat::X1X1, 8, 2, 34);
+step_harness!(c01_t_step_x1x1psk3_r2, step_read, 8, 4, 4, 2, Pat::X1X1, 8, 2, 34);
+step_harness!(c01_t_step_x1x1psk3_w3, step_write, 8, 4, 4, 1, Pat::X1X1, 8, 3, 34);
+step_harness!(c01_t_step_x1x1psk3_r3, step_read, 8, 4, 4, 2, Pat::X1X1, 8, 3, 34);
+step_harness!(c01_t_step_x1x1psk4_w0, step_write, 8, 4, 4, 1, Pat::X1X1, 16, 0, 34);
+step_harness!(c01_t_step_x1x1psk4_r0, step_read, 8, 4, 4, 2, Pat::X1X1, 16, 0, 34);
+step_harness!(c01_t_step_x1x1psk4_w1, step_write, 8, 4, 4, 1, Pat::X1X1, 16, 1, 34);
+step_harness!(c01_t_step_x1x1psk4_r1, step_read, 8, 4, 4, 2, Pat::X1X1, 16, 1, 34);
+step_harness!(c01_t_step_x1x1psk4_w2, step_write, 8, 4, 4, 1, Pat::X1X1, 16, 2, 34);
+step_harness!(c01_t_step_x1x1psk4_r2, step_read, 8, 4, 4, 2, Pat::X1X1, 16, 2, 34);
+step_harness!(c01_t_step_x1x1psk4_w3, step_write, 8, 4, 4, 1, Pat::X1X1, 16, 3, 34);
+step_harness!(c01_t_step_x1x1psk4_r3, step_read, 8, 4, 4, 2, Pat::X1X1, 16, 3, 34);
+step_harness!(c01_t_step_xxpsk0psk3_w2, step_write, 8, 4, 4, 1, Pat::XX, 9, 2, 34);
+step_harness!(c01_t_step_nnpsk0psk1psk2_r1, step_read, 8, 4, 4, 1, Pat::NN, 7, 1, 34);
+step_harness!(c01_t_step_xx_w1_hl32, step_write, 32, 4, 4, 1, Pat::XX, 0, 1, 34);
+step_harness!(c01_t_step_xx_r2_hl64_p256shape, step_read, 64, 5, 3, 1, Pat::XX, 0, 2, 66);
